@@ -330,7 +330,8 @@ def run(prog, rep):
         rep.unresolved("C16-R3", "analyse_formulae", "", "function not found")
         return
     rep.functions.add(an.qual)
-    s = terms.Engine(prog, inline=True, hooks=E.Hooks(["analysis::"])).summary(an)
+    import pipelines as _pl
+    s = _pl.analysis_engine(prog).summary(an)
     pn = an.param_names()
     formulae = ("param", pn[1])
     where = f"{an.file}:{an.line}"
